@@ -501,7 +501,11 @@ Definition argv_form_of (argv : option (list str)) : argv_form :=
 
 (* the common exit block of reproc_start (reproc.c:238-282), run by the parent and —
    in fork mode — also by the child *)
+(* in the forked child (r = 0) a child handle that carries one of the numbers 0-2 is one of the
+   standard streams process_start has just set up: it is forgotten, not closed (reproc.c finish:) *)
+Definition keep_std (r h : Z) : Z := if (r =? 0) && (0 <=? h) && (h <=? 2) then HANDLE_INVALID else h.
 Definition start_finish (p : rp) (r : Z) (o : options) (cin cout cerr cexit : Z) : MW (Z * rp) :=
+  let cin := keep_std r cin in let cout := keep_std r cout in let cerr := keep_std r cerr in
   redirect_destroy cin (rd_type (o_in o)) ;>
   let* cout := redirect_destroy cout (rd_type (o_out o)) in
   let* cerr := redirect_destroy cerr (rd_type (o_err o)) in
